@@ -15,6 +15,7 @@ before it (or free Verus text when outside an @extract block).
     @label TEXT                          name used in obligation ids
     @ret NAME                            `-> T` becomes `-> (NAME: T)`
     @header / payload                    clauses inserted between signature and body
+    @assume-body REASON                  mark the fn external_body: contract assumed, body unverified (listed as assumption)
     @loop ORD / payload                  clauses inserted between loop head and loop body
     @before "PREFIX" [#K] / payload      insert before K-th statement starting with PREFIX
     @after "PREFIX" [#K] / payload       insert after that (';'-terminated) statement
@@ -23,6 +24,8 @@ before it (or free Verus text when outside an @extract block).
     @rule R1 loop ORD iter NAME          for-desugaring over an external iterator
     @rule R2                             `.map(Self)`/`.map(Ctor)` eta-expansion (payload: closure text per match)
     @rule R3 loop ORD index NAME         iter_mut loop -> index loop
+    @rule R10 [NAME]                     `mut self` parameter -> `let mut NAME = self;` + renaming in the body
+    @rule ascribe "let x" "T"            type ascription added to a let                [R11]
     @rule pubfields                      struct fields made pub                      [R0]
     @rule macro-inst MACRO $v=Value      instantiate a macro_rules body like the invocation MACRO!(Value, ..) does [R9]
     @rule sub "A" => "B" [#K]            labelled literal substitution (counted, reported)
@@ -249,6 +252,7 @@ class Extractor:
         self.rule_counts = {}
         self.functions = []     # evidence: functions under contract
         self.dropped = []       # evidence: what extraction dropped
+        self.assumed = []       # evidence: extracted functions whose body is left unverified
 
     def count(self, rule, n=1):
         self.rule_counts[rule] = self.rule_counts.get(rule, 0) + n
@@ -379,6 +383,12 @@ class Extractor:
                     raise GenError("lost anchor: %s has no return type" % cur_label)
                 add(cur.ret_start, cur.ret_start, "(" + d.arg.strip() + ": ", ("ins", cur_label, "ret"))
                 add(cur.ret_end, cur.ret_end, ")", ("ins", cur_label, "ret"))
+            elif n == "assume-body":
+                # the body is NOT verified (it depends on something outside the model, e.g. type inference
+                # returning Ok); its contract becomes an assumption listed in the evidence
+                need_fn(d)
+                add(cur.item.start, cur.item.start, "#[verifier::external_body] ", ("ins", cur_label, "assume-body", d.line))
+                self.assumed.append("%s: body not verified, contract assumed (%s)" % (cur_label, d.arg or "no reason given"))
             elif n == "header":
                 need_fn(d)
                 add(cur.sig_end, cur.sig_end, "\n" + d.text() + "\n", ("ins", cur_label, "header", d.line))
@@ -413,7 +423,9 @@ class Extractor:
             else:
                 raise GenError("%s:%d: unknown directive @%s" % (self.unit, d.line, n))
 
-        # apply edits
+        # apply edits; edits inside a dropped / hoisted range are discarded with it
+        dels = [e for e in edits if e.tag[0] == "rule" and e.tag[1] in ("R0-drop-member", "R8-hoist")]
+        edits = [e for e in edits if e in dels or not any(dl.start <= e.start and e.end <= dl.end for dl in dels)]
         edits.sort(key=lambda e: (e.start, 0 if e.start == e.end else 1, e.order))
         # insertion at same position as start of a replacement comes first
         pieces = []
@@ -496,6 +508,36 @@ class Extractor:
                     if j + 1 >= close: break
                 j += 1
             self.count("R0-pubfields", n)
+            return
+        if rule == "R10":
+            # `fn f(mut self, ..) { B }`  =>  `fn f(self, ..) { let mut NAME = self; B[self := NAME] }`
+            name = args[1] if len(args) > 1 else "this"
+            toks = cur.toks
+            po, pc = cur.params_open, cur.params_close
+            if not (toks[po + 1].text == "mut" and toks[po + 2].text == "self"):
+                raise GenError("rule R10 no longer matches %s: first parameter is not `mut self`" % cur_label)
+            add(toks[po + 1].start, toks[po + 2].start, "", ("rule", "R10-mut-self", cur_label, d.line))
+            add(cur.body_open + 1, cur.body_open + 1, " let mut %s = self;" % name, ("rule-ins", "R10-mut-self", cur_label, d.line))
+            for q in range(cur.body_open_idx + 1, cur.body_close_idx):
+                t = toks[q]
+                if t.kind == "ident" and t.text == "self":
+                    add(t.start, t.end, name, ("rule", "R10-mut-self", cur_label, d.line))
+            self.count("R10-mut-self")
+            return
+        if rule == "ascribe":
+            # @rule ascribe "let mut x" "T" : add a type ascription to a let (Rust infers the same type;
+            # needed when ghost code mentions the variable before inference has fixed its type)
+            a, rest = _unquote(d.arg[len("ascribe"):].strip())
+            ty, _ = _unquote(rest)
+            lo, hi = cur.item.start, cur.item.end
+            pos = src.find(a, lo, hi)
+            if pos < 0 or src.find(a, pos + 1, hi) >= 0:
+                raise GenError("rule ascribe: %r must occur exactly once in %s" % (a, cur_label))
+            after = src[pos + len(a):pos + len(a) + 3]
+            if not re.match(r"\s*=", after):
+                raise GenError("rule ascribe: %r is not followed by `=` in %s" % (a, cur_label))
+            add(pos + len(a), pos + len(a), ": " + ty, ("rule-ins", "R11-ascribe", cur_label, d.line))
+            self.count("R11-ascribe")
             return
         if rule == "macro-inst":
             # @rule macro-inst MACRO $var=Value : instantiate a macro_rules transcriber the way the
